@@ -421,6 +421,13 @@ def gen_cell(rng):
     dE = rng.choice([logu(rng, 1e-6, 1e3), 2.0 ** rng.uniform(-1074, 100), 5e-324])
     if mode == "cell0":
         a = t = 1.0
+    elif rng.random() < 0.2:
+        # a neutral unit (vanishing charge correction factor): no energy is accumulated, the displacement is
+        # infinite whatever an earlier call on the same potential object left behind (seeded C02_r2m2)
+        if rng.random() < 0.5:
+            a = rng.choice([0.0, -0.0])
+        else:
+            t = rng.choice([0.0, -0.0])
     return {"kind": mode, "b0": b0, "b1": b1, "a": a, "t": t, "dE": dE, "vel": vel, "sep": []}
 
 
@@ -898,7 +905,7 @@ def oracle_cell(ctx, case, out):
         rate = (case["b0"] if cp > 0 else case["b1"]) * cp
     else:
         rate = case["b0"]
-    ctx.cls((k, rate > 0))
+    ctx.cls((k, rate > 0, "neutral" if k == "cell" and case["a"] * case["t"] == 0 else "charged"))
     if rate > 0:
         want = Fr(case["dE"]) / Fr(rate) / Fr(speed)
         if t == INF or t < 0 or abs(Fr(t) - want) > Fr(1, 10 ** 12) * want + Fr(5e-324) * (1 + 1 / Fr(speed)):
